@@ -8,7 +8,7 @@ Extraction "model.ml"
   Bytes.be_value Builder.builder_secrets Builder.parse_secrets Builder.dln_unmarshal
   ZMod.powmod ZMod.modinv ZMod.go_exp GoInt.go_jacobi GoInt.non_empty_multi GoInt.non_empty_multi_any
   Poly.eval_poly Poly.reconstruct Poly.prepare_wi Poly.lagrange0
-  Curve.secp256k1 Curve.ed25519 Curve.on_curve Curve.new_ec_point Curve.pt_add Curve.pt_neg Curve.ec_smul Curve.ec_base_mul Curve.ec_add
+  Curve.secp256k1 Curve.ed25519 Curve.p256 Curve.on_curve Curve.new_ec_point Curve.pt_add Curve.pt_neg Curve.ec_smul Curve.ec_base_mul Curve.ec_add
   Curve.unflatten Curve.flatten Curve.eight_inv_eight Curve.pt_on_curve Curve.base
   Paillier.encrypt Paillier.homo_mult Paillier.homo_add Paillier.decrypt Paillier.key_of_primes Paillier.primes_far_apart
   Paillier.generate_xs Paillier.pai_prove Paillier.pai_verify
